@@ -62,7 +62,8 @@ def build(u):
     build_with(u, HERE)
 
 
-def build_with(u, verified):
+def build_with(u, verified, extra=(), extra_types=None, extra_rules=()):
+    """`extra`: further functions of parser.rs emitted (and verified) after the nineteen shared ones (U-PSPAN4); `extra_types(u)` emits the types they need"""
     u.load_contracts('contracts/u_pspan.vc')
     u.notes += [
         'precondition of every parse function: stream_wf = every token location is a forward span AND the spans are ordered along the stream (what U-LEXA proves of lex())',
@@ -158,6 +159,10 @@ def build_with(u, verified):
         if f not in verified:
             externalize(u.contracts['fn ' + f])
         u.emit(P, 'fn ' + f, rules=[PR.ps1_hoist_peek_guard] + ([PR.ps2_reservation] if f in verified else []))
+    if extra_types:
+        extra_types(u)
+    for f in extra:
+        u.emit(P, 'fn ' + f, rules=[PR.ps1_hoist_peek_guard] + list(extra_rules))
 
 
 def primary_hints(cp):
